@@ -57,7 +57,7 @@ def gen_mdp(rng, length, S=None, A=None, ek=None, strict=True, kinds=("d",), foc
     hot = rng.sample(keys, min(len(keys), rng.randint(1, 3)))   # pairs visited most
     if focus: hot = hot[:1]
     def mk():
-        kind = rng.choice(kinds) if ek != "D" else "d"; flag = 1 if rng.random() < 0.3 else 0
+        kind = rng.choice(kinds) if ek != "D" else "d"; flag = 1 if (rng.random() < 0.3 and not focus) else 0
         models.append((kind, Trk(n, last, flag)))
         ops.append("m %s %d" % (kind, flag))
     if rng.random() < 0.5: mk()
